@@ -1,6 +1,6 @@
 (* Dispatcher used by both evaluation routes (vm_compute in cases.v, extracted runner). *)
 From Coq Require Import String List Bool.
-From HV Require Import Base.Sexp Model.DepKeys Model.Merge Model.Validate.
+From HV Require Import Base.Sexp Model.DepKeys Model.Merge Model.Validate Model.Ref.
 Import ListNotations.
 Open Scope string_scope.
 
@@ -8,7 +8,7 @@ Definition run_kind (kind : string) (args : list sexp) : option sexp :=
   if String.eqb kind "schemakey" then run_schemakey args
   else if String.eqb kind "merge" then run_merge args
   else if String.eqb kind "validate" then run_validate args
-  else None.
+  else run_ref kind args.
 
 (* (case <id> (<kind> args...) <observed>)  ->  (<id> ok) | (<id> diff <model-output>) | (<id> badinput) *)
 Definition run_case (c : sexp) : sexp :=
